@@ -58,6 +58,8 @@ def make_abstract_local(x, st, kind):
         return x.alloc(st, HSet(EMPTY))
     if kind == "namerel":
         return x.alloc(st, HRel(EMPTY_REL))
+    if kind == "kindseq":
+        return x.alloc(st, HKinds(z3.BoolVal(True), z3.IntVal(-1)))
     raise OutOfReach("abstract local kind " + kind)
 
 
@@ -67,6 +69,8 @@ def havoc_abstract(x, st, v):
         st.heap[v.t] = HSet(z3.Const(fresh_name("hv_set"), TSet))
     elif isinstance(o, HRel):
         st.heap[v.t] = HRel(z3.Const(fresh_name("hv_rel"), Rel))
+    elif isinstance(o, HKinds):
+        st.heap[v.t] = HKinds(z3.Bool(fresh_name("hv_wf")), z3.Int(fresh_name("hv_last")))
 
 
 def title_of(v):
@@ -219,7 +223,7 @@ def call_abstract(x, st, handler, pos, kw, node):
 
 # ------------------------------------------------------------------ clause builtins
 
-CLAUSE_BUILTINS = {"processed_n", "forall_t", "forall_n", "imp", "all_of", "any_of", "marked", "is_template", "member",
+CLAUSE_BUILTINS = {"children_well_formed", "ends_with_node_or_empty", "processed_n", "forall_t", "forall_n", "imp", "all_of", "any_of", "marked", "is_template", "member",
                    "related", "uses", "flag", "key", "in_S", "processed", "same", "neg"}
 
 
@@ -229,6 +233,8 @@ def clause_builtin(x, st, name, pos, kw, node, chain):
         if t is None:
             raise OutOfReach(f"{name}: expected a title/page, got {v.k}")
         return t
+    if name in ("children_well_formed", "ends_with_node_or_empty"):
+        return [(st, vbool(kinds_clause(x, st, name, pos)))]
     if name == "imp":
         return [(st, vbool(z3.Implies(x.truth_st(pos[0], st), x.truth_st(pos[1], st))))]
     if name == "neg":
@@ -284,3 +290,46 @@ def quantifier(x, st, name, lam, chain):
         raise OutOfReach("quantifier body forks or raises; use imp/all_of/any_of/neg")
     body = x.truth_st(rs[0][1], rs[0][0])
     return [(st, vbool(z3.ForAll(vars_, body)))]
+
+
+# ------------------------------------------------------------------ kind sequences (C01: children lists)
+# ghost view of a list of parse-tree children: (wf, last) where
+#   wf   <=> the list built so far contains no empty str and no two adjacent strs
+#   last  =  kind of the last element: -1 empty list, 0 node (not a str), 1 non-empty str, 2 empty str
+# every append updates the view exactly (it is a homomorphic image of the list under append)
+
+
+class HKinds:
+    def __init__(self, wf, last):
+        self.wf = wf
+        self.last = last
+        self.items = None
+
+    def copy(self):
+        return HKinds(self.wf, self.last)
+
+
+def kind_term(x, st, v):
+    if v.k == "str":
+        return z3.If(z3.Length(v.t) > 0, z3.IntVal(1), z3.IntVal(2))
+    if v.k == "opq":
+        return z3.If(z3.Bool(f"isinst!{v.t}!str"), z3.If(z3.Bool("truth!" + v.t), z3.IntVal(1), z3.IntVal(2)), z3.IntVal(0))
+    return z3.IntVal(0)
+
+
+def kinds_method(x, st, ref, o, name, pos, node):
+    if name == "append":
+        k = kind_term(x, st, pos[0])
+        o.wf = z3.And(o.wf, k != 2, z3.Not(z3.And(o.last == 1, k == 1)))
+        o.last = k
+        return [(st, NONE)]
+    raise OutOfReach("abstract children-list method " + name)
+
+
+def kinds_clause(x, st, name, pos):
+    o = st.heap[pos[0].t]
+    if name == "children_well_formed":
+        return o.wf
+    if name == "ends_with_node_or_empty":
+        return z3.Or(o.last == -1, o.last == 0)
+    raise OutOfReach(name)
